@@ -466,9 +466,19 @@ pub enum DeepKind {
 	UnclosedMixed,
 	ErrorInMiddle,
 	HalfClosed,
+	/// `{"a":<deep closed array>,"b":x` : error while parsing the value of a later entry
+	DeepSiblingThenBadEntryValue,
+	/// `[<deep closed array>,x` : error while parsing a later item
+	DeepSiblingThenBadItem,
+	/// `{"a":<deep closed object>,x` : error at the next key
+	DeepSiblingThenBadKey,
+	/// `{"a":<deep closed array> x` : error at the separator
+	DeepSiblingThenBadSeparator,
+	/// `[{"a":<deep>,"b":[<deep>,{"c":<deep>` : several completed deep siblings, then end of input
+	SeveralDeepSiblingsUnclosed,
 }
 
-pub const DEEP_KINDS: [DeepKind; 9] = [
+pub const DEEP_KINDS: [DeepKind; 14] = [
 	DeepKind::Arrays,
 	DeepKind::Objects,
 	DeepKind::Mixed,
@@ -478,6 +488,11 @@ pub const DEEP_KINDS: [DeepKind; 9] = [
 	DeepKind::UnclosedMixed,
 	DeepKind::ErrorInMiddle,
 	DeepKind::HalfClosed,
+	DeepKind::DeepSiblingThenBadEntryValue,
+	DeepKind::DeepSiblingThenBadItem,
+	DeepKind::DeepSiblingThenBadKey,
+	DeepKind::DeepSiblingThenBadSeparator,
+	DeepKind::SeveralDeepSiblingsUnclosed,
 ];
 
 /// A document nested `depth` levels deep.
@@ -519,6 +534,44 @@ pub fn deep_doc(kind: DeepKind, depth: usize) -> Vec<u8> {
 		DeepKind::HalfClosed => {
 			rep(&mut v, b"[", depth);
 			rep(&mut v, b"]", depth / 2);
+		}
+		DeepKind::DeepSiblingThenBadEntryValue => {
+			v.extend_from_slice(b"{\"a\":");
+			rep(&mut v, b"[", depth);
+			rep(&mut v, b"]", depth);
+			v.extend_from_slice(b",\"b\":x");
+		}
+		DeepKind::DeepSiblingThenBadItem => {
+			v.extend_from_slice(b"[");
+			rep(&mut v, b"[", depth);
+			rep(&mut v, b"]", depth);
+			v.extend_from_slice(b",x");
+		}
+		DeepKind::DeepSiblingThenBadKey => {
+			v.extend_from_slice(b"{\"a\":");
+			rep(&mut v, b"{\"k\":", depth);
+			v.extend_from_slice(b"1");
+			rep(&mut v, b"}", depth);
+			v.extend_from_slice(b",x");
+		}
+		DeepKind::DeepSiblingThenBadSeparator => {
+			v.extend_from_slice(b"{\"a\":");
+			rep(&mut v, b"[", depth);
+			rep(&mut v, b"]", depth);
+			v.extend_from_slice(b" x");
+		}
+		DeepKind::SeveralDeepSiblingsUnclosed => {
+			let d = depth / 3;
+			v.extend_from_slice(b"[{\"a\":");
+			rep(&mut v, b"[", d);
+			rep(&mut v, b"]", d);
+			v.extend_from_slice(b",\"b\":[");
+			rep(&mut v, b"{\"k\":", d);
+			v.extend_from_slice(b"null");
+			rep(&mut v, b"}", d);
+			v.extend_from_slice(b",{\"c\":");
+			rep(&mut v, b"[", d);
+			rep(&mut v, b"]", d);
 		}
 	}
 	v
